@@ -31,6 +31,8 @@ type Op struct {
 	// WantAny means the outcome is not asserted.
 	WantErr string
 	WantAny bool
+	// WantFail: any error is right, success is wrong
+	WantFail bool
 	// Returned are the managed addresses the operation handed out, Expected
 	// the oracle's view of them (same order).
 	Returned                   []waddrmgr.ManagedAddress
@@ -641,13 +643,18 @@ func (w *World) opRestart() *Op {
 func (w *World) opDerivePath() *Op {
 	s := w.pickScope()
 	a := w.pickAcct(s)
-	branch := uint32(w.R.Intn(2))
+	// branches beyond 0/1 are used as key families by callers of DeriveFromKeyPath
+	branch := []uint32{0, 1, 0, 1, 2, 7}[w.R.Intn(6)]
 	var index uint32
-	if a.Next[branch] > 0 && w.R.Intn(3) != 0 {
+	switch {
+	case branch > 1:
+		index = uint32(w.R.Intn(60))
+	case a.Next[branch] > 0 && w.R.Intn(3) != 0:
 		index = uint32(w.R.Intn(int(a.Next[branch])))
-	} else {
+	default:
 		index = a.Next[branch] + uint32(w.R.Intn(50)) // a path never issued
 	}
+	locked := !w.Unlocked()
 	kp := waddrmgr.DerivationPath{InternalAccount: a.Num, Account: a.ChildIx, Branch: branch, Index: index, MasterKeyFingerprint: a.FP}
 	op := &Op{Kind: "derivepath", Name: fmt.Sprintf("derivepath %v/%d/%d/%d", s, a.Num, branch, index)}
 	op.Run = func(ns walletdb.ReadWriteBucket) error {
@@ -660,6 +667,7 @@ func (w *World) opDerivePath() *Op {
 		if eerr != nil {
 			return fmt.Errorf("oracle: %w", eerr)
 		}
+		e.Locked = locked
 		op.Returned = []waddrmgr.ManagedAddress{ma}
 		op.Expected = []*Addr{e}
 		// the cached variant: fills the derived-key cache when unlocked
@@ -718,7 +726,22 @@ func (w *World) opSyncedTo() *Op {
 func (w *World) opNewScope() *Op {
 	// a watch-only manager creates scopes without a default account; the
 	// harness does not model account-less scopes
-	if len(w.Scopes) >= 6 || w.WatchOnly || w.Neutered {
+	if w.WatchOnly {
+		return nil
+	}
+	// 1 in 4: a scope that exists already is registered again (with any schema):
+	// refused, and nothing about the existing scope may change
+	if w.R.Intn(4) == 0 {
+		s := w.Scopes[w.R.Intn(len(w.Scopes))]
+		schema := waddrmgr.ScopeAddrSchema{ExternalAddrType: waddrmgr.WitnessPubKey, InternalAddrType: waddrmgr.WitnessPubKey}
+		op := &Op{Kind: "newscope-existing", Mutates: true, WantFail: true, Name: fmt.Sprintf("newscope %v again (it exists)", s)}
+		op.Run = func(ns walletdb.ReadWriteBucket) error {
+			_, err := w.M.NewScopedKeyManager(ns, s, schema)
+			return err
+		}
+		return op
+	}
+	if len(w.Scopes) >= 6 || w.Neutered {
 		return nil
 	}
 	s := waddrmgr.KeyScope{Purpose: uint32(1000 + w.R.Intn(1000)), Coin: uint32(w.R.Intn(3))}
